@@ -542,7 +542,7 @@ fn expand_string_assertion(value_expr: &TokenStream, pattern: &PatternString) ->
         //    entire block - fixes E0716 "temporary dropped while borrowed".
         // 2. Reference-typed expressions (e.g. from index operations) are not
         //    moved - fixes E0507 "cannot move out of shared reference".
-        let __assert_struct_tmp = &#value_expr;
+        let __assert_struct_tmp = &(#value_expr);
         let __assert_struct_actual = (*__assert_struct_tmp).as_ref();
         if !matches!(__assert_struct_actual, #lit) {
             #error_push
@@ -601,7 +601,7 @@ fn expand_slice_assertion(value_expr: &TokenStream, pattern: &PatternSlice) -> T
 
     let error_push = generate_error_push(
         proc_macro2::Span::call_site(),
-        quote!(format!("{:?}", &#value_expr)),
+        quote!(format!("{:?}", &(#value_expr))),
         quote!(None),
         pattern.node_id,
     );
